@@ -1,7 +1,7 @@
 #!/bin/bash
 # Runs the repository's pinned test suite (guard OFF) and compares with /root/.vp/BASELINE.json stable_pass.
 out=$(mktemp /tmp/baseline.XXXXXX.xml)
-cd "${VERIF_REPO:-/repo}" && /venv/bin/python -m pytest -ra -q -p no:cacheprovider --timeout=900 --continue-on-collection-errors -n "${N:-8}" --junitxml="$out" >/dev/null 2>&1
+cd "${VERIF_REPO:-/repo}" && PYTHONPATH="${VERIF_REPO:-/repo}" /venv/bin/python -m pytest -ra -q -p no:cacheprovider --timeout=900 --continue-on-collection-errors -n "${N:-8}" --junitxml="$out" >/dev/null 2>&1
 /venv/bin/python - "$out" <<'PY'
 import sys, json, xml.etree.ElementTree as ET
 root = ET.parse(sys.argv[1]).getroot()
